@@ -279,8 +279,15 @@ class Repo(object):
                     self.inlined[name] = {"inlined": done, "dropped": removed}
                     ast.fix_missing_locations(mod.tree)
                     set_parents(mod.tree)
+        for name, mod in self.modules.items():
+            if name in ref and not os.environ.get("VERIF_NO_EQUIV"):
+                got = equiv.adopt_reference(mod.tree, ref[name], hier_cur, hier_ref)
+                if got:
+                    self.adopted[name] = got
+                    set_parents(mod.tree)
         # E17: stable local aliases (bound methods, attributes bound once in __init__, constants) written back in the
         # functions that differ from their confirmed namesake
+        e17_touched = set()
         if not os.environ.get("VERIF_NO_ALIASES"):
             from . import aliases
             sites = aliases.rebinding_sites([m.tree for m in self.modules.values()])
@@ -293,6 +300,7 @@ class Repo(object):
                 if name not in ref or ast.dump(mod.tree) == ast.dump(ref[name]):
                     continue
                 if aliases.compat_spellings(mod.tree, ref[name]):
+                    e17_touched.add(name)
                     set_parents(mod.tree)
                 refu = {k: n for k, n, _, _ in equiv.units(ref[name])}
                 differ = [n for k, n, _, _ in equiv.units(mod.tree)
@@ -314,14 +322,17 @@ class Repo(object):
                                 k_.add("def " + n_.name)
                     got = aliases.write_back(mod.tree, related, sites, only=differ, keep=keep, methods=meths)
                     if got:
+                        e17_touched.add(name)
                         self.simplified.setdefault(name, []).extend("alias " + g for g in got)
                         ast.fix_missing_locations(mod.tree)
                         set_parents(mod.tree)
+        # ... and what E17 rewrote gets a second chance of being proved equal to its confirmed namesake
         for name, mod in self.modules.items():
-            if name in ref and not os.environ.get("VERIF_NO_EQUIV"):
+            if name in ref and not os.environ.get("VERIF_NO_EQUIV") and name in e17_touched:
                 got = equiv.adopt_reference(mod.tree, ref[name], hier_cur, hier_ref)
                 if got:
-                    self.adopted[name] = got
+                    self.adopted.setdefault(name, [])
+                    self.adopted[name] = list(self.adopted[name]) + [g for g in got if g not in self.adopted[name]]
                     set_parents(mod.tree)
         for name, mod in self.modules.items():
             if name in ref and not os.environ.get("VERIF_NO_EQUIV"):
